@@ -47,6 +47,7 @@ MCNodes == { Nd("h1", "", "c", 10, 20, "", -1, -1, -1),     \* fully specified
              Nd("h2", "", "c", 7, 7, "r", 5, 0, 420),       \* own uid, gid 0 set explicitly, file mode
              Nd("h1", "", "c", 10, 20, "", 9, -1, -1),      \* own uid only: the gid comes from the process
              Nd("h2", "", "c", 7, 7, "", -1, 8, -1),        \* own gid only: the uid comes from the process
+             Nd("h2", "", "", 7, 9, "w", -1, -1, -1),       \* numbers given, type from the host: the numbers stay
              Nd("h1", "", "p", 0, 0, "", -1, -1, -1),       \* fifo: never looked up, no rule
              Nd("h2", "", "u", 3, 4, "", -1, -1, -1) }      \* unbuffered char: no rule
 MCMounts == { Mnt(<<"a">>, "s1"), Mnt(<<"a", "b">>, "s1"), Mnt(<<"a", "b", "">>, "s1"), Mnt(<<"a", "", "c">>, "s1"),
